@@ -58,6 +58,7 @@ type FnVerifier struct {
 	usedContracts map[string]bool
 	typeTags      map[string]int
 	payloadAx     bool
+	macCache      map[string]string
 	oblSeen       map[string]int
 	siteCount     map[string]int
 	lockBase      *State // state at first Lock (old() for atomic functions)
@@ -413,6 +414,7 @@ func (fr *Frame) afterLoopAsserts(from, to *ssa.BasicBlock, st *State, cond stri
 			o := v.addObl(st, "assert", fmt.Sprintf("%s#%d", as.Label, v.siteCount["assert."+as.Label]), implies(cond, g), as.Cl.Text, pickProps(as.Cl, v.fc.Serves), pos)
 			o.Extra = extra
 			o.Group = as.Cl.Group
+			v.siteCover(st, o)
 			v.assertHits[as.Label]++
 		}
 	}
@@ -1420,4 +1422,13 @@ func (v *FnVerifier) opaqueBlobFuns(t types.Type, n int64) (toBlob, fromBlob str
 		v.smt.axiom(ax)
 	}
 	return
+}
+
+// siteCover: vacuity guard for a site assertion — the site must be reachable under the
+// assumptions in force there (a contradictory invariant or precondition would discharge anything).
+func (v *FnVerifier) siteCover(st *State, o *Obligation) {
+	c := v.addObl(st, "cover", "site."+strings.TrimPrefix(o.Name, v.unitName()+".assert."), "false", "the assertion site is reachable", o.Props, token.NoPos)
+	c.Cover = true
+	c.Group = o.Group
+	c.Pos = o.Pos
 }
